@@ -182,8 +182,17 @@ class World:
         if rng.random() < 0.4:
             # finish the fallback session if one was opened (refused otherwise)
             sid = "$SID%d$" % k
-            dput = d if rng.random() < 0.7 else dg(alg, data + b"!")
-            self.add(upload_put(tgt, sid, None, dput, state_token(0), data))
+            x = rng.random()
+            body = data
+            dput = d
+            if x < 0.2:
+                dput = dg(alg, data + b"!")             # a digest the body does not hash to
+            elif x < 0.45:
+                # other content than the session was opened for, with its own (correct) digest
+                body = data + b"-other"
+                self.contents.add(body)
+                dput = dg(d.split(":")[0], body)
+            self.add(upload_put(tgt, sid, None, dput, state_token(0), body))
             self.add(blob_get(tgt, d))
             self.add(upload_get(tgt, sid))
         self.contents.add(data)
